@@ -1,5 +1,5 @@
 import PdshVerif.Dsh.TimedHealthy
-import PdshVerif.Dsh.FanLive
+import PdshVerif.Dsh.TimedBound
 
 /-!
 # C07 — a failing or slow host never harms the others; timeouts bound the run
@@ -25,7 +25,9 @@ What is proved (all fanouts, all numbers of targets, all fault vectors, all sche
   is DONE with every byte of both streams read, having been connected exactly once — whatever the other
   targets do;
 * `connect_deadline`, `command_deadline`, `interrupted_is_abandoned_now`, `unlimited_never_interrupted`;
-* `failed_reported` (command timeout; connect-time messages are the transport module's).
+* `failed_reported` (command timeout; connect-time messages are the transport module's);
+* `terminates_with_timeouts` (both timeouts set: virtual time ≤ n·(ct+ut+2·WDOG_POLL) until dsh() returns)
+  and `never_stuck`.
 Not proved here: that dsh.c refines the LTS (trace correspondence of `checks/c07.py`); anything below
 the granularity "operations + blocking calls" (a SIGALRM that finds the worker between two xpoll calls
 is lost — finding F07-LOSTALRM — the model's workers are always inside xpoll while READING);
@@ -174,6 +176,43 @@ theorem interrupted_is_abandoned_now {v f c scripts} {s : St} (h : Reach v f c s
 theorem failed_reported {v f c scripts} {s : St} (h : Reach v f c scripts s) {j : Nat} (hj : j < s.hs.length)
     (hres : (s.host j).res = .cmdTimedOut) : Rep.cmdTimeout ∈ (s.host j).reps :=
   ((tinv_reach h).hosts j hj).resRep hres
+
+/-- TIMEOUTS BOUND THE RUN: with both timeouts set (and fanout ≥ 1), as long as dsh() has not returned the
+    virtual clock is at most n · (connect_timeout + command_timeout + 2 · WDOG_POLL) — whatever the targets
+    do and however the threads are scheduled.  (The case "command_timeout = 0 but no target hangs after the
+    connect" of DESIGN's `terminates_with_timeouts` is not proved; the check exercises it.) -/
+theorem terminates_with_timeouts {v f c scripts} {ls : List Label} {s : St} (he : Exec (init v f c scripts) ls s)
+    (hf : 0 < f) (hct : 0 < c.ct) (hut : 0 < c.ut) (hnf : ¬ Final s) :
+    s.now ≤ scripts.length * (c.ct + c.ut + 2 * WDOG_POLL) := by
+  have := (time_bounded he hf hct hut).2.2 hnf
+  have h2 : scripts.length * ((c.ct + WDOG_POLL) + (c.ut + WDOG_POLL)) = scripts.length * (c.ct + c.ut + 2 * WDOG_POLL) := by
+    congr 1; omega
+  omega
+
+/-- the timed system never gets stuck: in every state some operation other than a spurious wake-up is
+    possible — a thread can run, or (only then) a second passes.  With `terminates_with_timeouts`: seconds
+    cannot pass for ever, so the run is driven to the return of dsh(). -/
+theorem never_stuck (s : St) : ∃ l, l.spurious = false ∧ (step s l).isSome = true := by
+  cases hq : quiescent s with
+  | true => exact ⟨.tick, rfl, by simp [step, hq]⟩
+  | false =>
+    have := hq
+    simp only [quiescent, List.all_eq_false] at this
+    obtain ⟨l, hl, hsome⟩ := this
+    have hs : (dstep s l).isSome = true := by
+      cases h : dstep s l with
+      | none => simp [h] at hsome
+      | some x => rfl
+    have hnt : l ≠ .tick := by intro hc; subst hc; simp [dstep] at hs
+    refine ⟨l, ?_, by rw [step_eq_dstep hnt]; exact hs⟩
+    -- the operations that block the clock are not spurious
+    simp only [cands, List.mem_cons, List.mem_append, List.mem_map, List.mem_flatMap, List.mem_range] at hl
+    rcases hl with (rfl | ⟨a, ha, rfl⟩) | ⟨i, _, rfl | ⟨a, _, rfl⟩⟩
+    · rfl
+    · simp only [Fan.dActs, List.mem_cons, List.mem_nil_iff, or_false] at ha
+      rcases ha with rfl | rfl | rfl | rfl | rfl | rfl | rfl <;> rfl
+    · rfl
+    · rfl
 
 /-- non-vacuity: fanout 1, connect timeout 1, command timeout 1; target 0 hangs in connect, target 1 is
     healthy.  The run ends at second 2 with target 0 timed out and target 1 done, 3 bytes read. -/
